@@ -286,3 +286,55 @@ theorem DeltaInv.sliced {s₀ : Delta.State} {input : List UInt8} (fin : Bool) (
     · exact ih (h.piece fin inLen cap)
 
 end XzVerif.Coder
+
+namespace XzVerif.Coder
+open XzVerif.Vli
+
+/-- The multi-call loop started at `(acc, pos)` and the specification decoder `vliDecodeAux pos` agree: the loop ends with
+    `LZMA_STREAM_END` exactly when the specification decodes a value, which is then added at bit position `7·pos`. -/
+theorem vliDecLoop_spec (t : List UInt8) (acc pos used : Nat) :
+    match vliDecodeAux pos t with
+    | some (v, r) => vliDecLoop t acc pos used
+          = (.streamEnd, acc + v * 2 ^ (7 * pos), pos + (t.length - r.length), used + (t.length - r.length))
+        ∧ r = t.drop (t.length - r.length) ∧ r.length < t.length
+    | none => (vliDecLoop t acc pos used).1 ≠ .streamEnd := by
+  induction t generalizing acc pos used with
+  | nil => simp [vliDecodeAux, vliDecLoop]
+  | cons b t ih =>
+    simp only [vliDecodeAux, vliDecLoop]
+    by_cases hb : b.toNat < 128
+    · simp only [hb, if_true]
+      by_cases hz : b.toNat = 0 ∧ pos > 0
+      · have hz' : b.toNat = 0 ∧ pos + 1 > 1 := ⟨hz.1, by omega⟩
+        simp [hz, hz']
+      · have hz' : ¬(b.toNat = 0 ∧ pos + 1 > 1) := by
+          intro h; exact hz ⟨h.1, by omega⟩
+        simp only [hz, hz', if_false]
+        have hm : b.toNat % 128 = b.toNat := Nat.mod_eq_of_lt hb
+        refine ⟨?_, by simp, by simp⟩
+        simp [hm, Nat.shiftLeft_eq, Nat.mul_comm pos 7]
+    · simp only [hb, if_false]
+      by_cases h9 : pos + 1 = VLI_BYTES_MAX
+      · simp [h9]
+      · simp only [h9, if_false]
+        have := ih (acc + (b.toNat % 128) <<< (pos * 7)) (pos + 1) (used + 1)
+        cases hrec : vliDecodeAux (pos + 1) t with
+        | none => simpa [hrec] using this
+        | some p =>
+          obtain ⟨v, r⟩ := p
+          simp only [hrec] at this ⊢
+          obtain ⟨h1, h2, h3⟩ := this
+          have hl : (b :: t).length - r.length = (t.length - r.length) + 1 := by simp; omega
+          refine ⟨?_, ?_, by simp; omega⟩
+          · rw [h1, hl]
+            have e : 2 ^ (7 * (pos + 1)) = 128 * 2 ^ (7 * pos) := by
+              rw [Nat.mul_add, Nat.pow_add]; simp [Nat.mul_comm]
+            simp only [Nat.shiftLeft_eq, Nat.mul_comm pos 7, e, Prod.mk.injEq, true_and]
+            refine ⟨?_, by omega, by omega⟩
+            rw [Nat.add_mul, Nat.add_assoc]
+            congr 1
+            congr 1
+            rw [Nat.mul_comm 128 v, Nat.mul_assoc]
+          · rw [hl, List.drop_succ_cons]; exact h2
+
+end XzVerif.Coder
